@@ -13,7 +13,7 @@ from gen.programs import INT, BOOL, STR, FLOAT, VOID, tup, fn, iter_of, arr, cel
 from props import c07
 from vlib import driver_run, esc_field, harness_run, sexp_parse, sexp_str
 
-THM_MODULES = ["SslModel.Thm.C04"]
+THM_MODULES = ["SslModel.Thm.C04", "SslModel.Thm.C04Fold"]
 TRANSLATE_PARTS = ["scalar", "errors"]
 FOLDABLE = {"IndexOutOfBounds", "ZeroDivision", "ZeroModulo", "OverflowShift", "NegativeLength"}
 I = lambda n: ("i", n)
